@@ -76,6 +76,48 @@ def _run_one(args: tuple[str, int, str]) -> dict:
     }
 
 
+def _run_patch(args: tuple[str, str, str]) -> dict:
+    """Replay one committed patch (seeded change or refactoring) in memory and report what this check says about it."""
+    from pathlib import Path
+
+    from .patches import PatchError, apply_diff
+
+    prop, patch_path, root = args
+    name = Path(patch_path).parent.name
+    try:
+        overlay = apply_diff(Path(root), Path(patch_path).read_text())
+    except (PatchError, OSError) as e:
+        return {"name": name, "status": "does-not-apply", "detail": str(e)[:200]}
+    base = _failing(prop, Program(root), "quick")
+    mut = _failing(prop, Program(root, overlay=overlay), "quick")
+    if isinstance(base, str) or isinstance(mut, str):
+        return {"name": name, "status": "analysis-error", "detail": str(mut if isinstance(mut, str) else base)[:200]}
+    new = sorted(mut - base)
+    return {"name": name, "status": "alarm" if new else "silent", "detail": "; ".join(f"{r} @ {i}" for r, i, _ in new)[:300]}
+
+
+def run_corpus(prop: str, root: str | None = None, jobs: int = 16) -> dict:
+    """Replay the committed corpora: every refactoring must leave this check silent; seeded changes written for this
+    property are expected to be reported (by this check or, as recorded in seeded/RESULTS.md, by a sibling check)."""
+    from pathlib import Path
+
+    verif = Path(__file__).resolve().parent.parent
+    root = root or str(Program().root)
+    refs = sorted(str(p) for p in (verif / "refactors").glob("*/patch.diff"))
+    seeds = sorted(str(p) for p in (verif / "seeded").glob(f"{prop}-*/patch.diff"))
+    with ProcessPoolExecutor(max_workers=jobs) as ex:
+        r_ref = list(ex.map(_run_patch, [(prop, p, root) for p in refs]))
+        r_seed = list(ex.map(_run_patch, [(prop, p, root) for p in seeds]))
+    return {
+        "refactorings": len(r_ref),
+        "refactorings_silent": sum(r["status"] == "silent" for r in r_ref),
+        "refactoring_alarms": [r for r in r_ref if r["status"] != "silent"],
+        "seeded_for_this_property": len(r_seed),
+        "seeded_reported_by_this_check": [r["name"] for r in r_seed if r["status"] == "alarm"],
+        "seeded_not_reported_by_this_check": [r["name"] for r in r_seed if r["status"] != "alarm"],
+    }
+
+
 def run(prop: str, root: str | None = None, jobs: int = 16) -> dict:
     mod = importlib.import_module(f"sa.rules.{prop.lower()}")
     muts = getattr(mod, "MUTANTS", [])
@@ -95,6 +137,7 @@ def run(prop: str, root: str | None = None, jobs: int = 16) -> dict:
         "stale": [r["name"] for r in results if r["status"] in ("stale", "broken-mutant")],
         "results": results,
     }
+    summary["corpus"] = run_corpus(prop, root, jobs)
     return summary
 
 
@@ -108,6 +151,11 @@ def main(argv: list[str]) -> int:
         print(f"{p}: {s.get('killed', 0)}/{s['mutants']} killed, other-rule={s.get('killed_other_rule', 0)}, "
               f"missed={s.get('missed', [])}, twins silent {s.get('twins_silent', 0)}/{s.get('twins', 0)}, "
               f"twin alarms={s.get('twin_alarms', [])}, stale={s.get('stale', [])}")
+        c = s.get("corpus", {})
+        print(f"    corpus: refactorings silent {c.get('refactorings_silent')}/{c.get('refactorings')}, alarms={[r['name'] for r in c.get('refactoring_alarms', [])]}; "
+              f"seeded for {p}: reported here {c.get('seeded_reported_by_this_check')}, elsewhere/not {c.get('seeded_not_reported_by_this_check')}")
+        if c.get("refactoring_alarms"):
+            bad += 1
         for r in s["results"]:
             if r["status"] not in ("killed", "silent"):
                 print(f"    {r['status']:>24} {r['name']}: {r['detail']}")
